@@ -435,8 +435,12 @@ class Custom(Op):
         text = dec(text)
         parts = rest.split(" ")
         if len(parts) < 17 or parts[0] != "P":
-            return None if self.may_overflow(m, pt, fmt, ztz) else (
-                "%s gave %r, which does not parse back (%s)" % (what, text, rest))
+            if self.may_overflow(m, pt, fmt, ztz):
+                if not pt[8]:
+                    return ("%s printed %r although the year of the re-zoned point does not fit the format's digits "
+                            "(a bounds error is due; the text does not parse back: %s)" % (what, text, rest))
+                return None
+            return "%s gave %r, which does not parse back (%s)" % (what, text, rest)
         q = parse_point(" ".join(parts[:17]))
         want = instant_of_point(m, pt)
         got = instant_of_fields(m, q)
@@ -458,12 +462,29 @@ class Custom(Op):
 
     @staticmethod
     def may_overflow(m, pt, fmt, ztz):
-        """Could the year the format prints fall outside its digits (so a refusal is legitimate)?"""
-        ned, y = pt[0], pt[2]
+        """Does the year the format has to print - the calendar year, or the week-year for a week format, of the
+        point RE-ZONED to the format's zone - fall outside the format's digits, so that a refusal is the right
+        answer (and a printed text is not)?  Exact for whole-second points; for decimal forms (float domain) within
+        a day of a year boundary either outcome is tolerated."""
+        ned, rep, y, a, b, hh, mi, ss, unit, digits, tzh, tzm = pt
+        if "X" in fmt and ned == 0:
+            return True
         width = 4 + (ned if "X" in fmt else 0)
         lo = -(10 ** width - 1) if "X" in fmt and ned else 0
         hi = 10 ** width - 1
-        return not (lo + 1 <= y - 1 and y + 1 <= hi - 1) or ("X" in fmt and ned == 0)
+        local = instant_of_point(m, pt) + 3600 * ztz[0] + 60 * ztz[1]
+        day = local // 86400
+        if hh == 24 and tuple(ztz) == (tzh, tzm):
+            day -= 1          # 24:00 is kept as written when the zone does not change
+        frep = rep_of_format(fmt)
+
+        def year_of(dn):
+            return oracle.week_of_day_num(m, dn)[0] if frep == "w" else oracle.cal_of_day_num(m, dn)[0]
+        yr = year_of(int(day))
+        if unit:
+            years = {year_of(int(day) - 1), yr, year_of(int(day) + 1)}
+            return not all(lo <= v <= hi for v in years)
+        return not lo <= yr <= hi
 
     def label(self, a):
         m, cfg, pt, fmt, ztz = a
